@@ -73,6 +73,11 @@ def r91_92(rep: Report, ctx: Ctx) -> None:
             elif isinstance(par, ast.Compare) and par.left is n and all(
                     isinstance(o, (ast.In, ast.NotIn)) for o in par.ops):
                 lookups.append(n)
+            elif isinstance(par, ast.Call) and isinstance(
+                    par.func, ast.Attribute) and par.func.attr in (
+                    "get", "pop", "setdefault") and par.args \
+                    and par.args[0] is n:
+                lookups.append(n)   # mapping.get(key, default): a key
             else:
                 flows.append(n)
     bad = [n for n in flows if n.attr != "event_type"]
